@@ -54,3 +54,44 @@ def class_border_inputs(slots):
     for u in CLASS_BORDER_CHARS:
         for t in slots:
             yield t.replace('%s', u).replace('%%', '%')
+
+
+# ---- near misses: a long run of one kind of piece followed by something that is NOT what a pattern expects next.  A regular expression with a
+# nested quantifier (`(?:[\w-]+:?)+[\s>]`, `(?:-{0,2}[a-z]+)+:`) matches or rejects ordinary text at once, and backtracks exponentially on
+# 25+ characters of almost-matching text: nothing shorter shows it, and the answers stay right.  (Termination is decided on CPU time: core.call.)
+RUN_UNITS = ['a', 'Ab', 'a-', 'ab-cd-', '-', '- ', 'a ', 'ab cd ', '_', 'a_b', '0', '1 ', 'a:', '--a', '\u00e9', ' ', 'a1-', 'word-', '-webkit-a-', 'x ', '* ', '+ ', 'ab.', 'a,']
+RUN_ENDS = ['/', '.', ':', '@', '\\', '', '!', ';', '(', ')', '#', '%', 'x', '>', '/>', ':x', '.5', '?', '=', '&', ',', '~', '|']
+RUN_LENGTHS = (26, 30, 34, 44, 64)
+
+
+def near_miss(rng, units=RUN_UNITS, ends=RUN_ENDS, lengths=RUN_LENGTHS):
+    unit = rng.choice(units)
+    k = rng.choice(lengths)
+    return (unit * k)[:k].rstrip(' ') + rng.choice(ends)
+
+
+MARKUP_RUN_SLOTS = ['p{<%s}', 'p{<%s/>}', 'li{<%s}*2', 'p{%s}', 'a[title="%s"]', 'a[class="%s md:x"]', '.%s', '.%s.md:flex', '#%s', '[%s]', 'x-%s', 'p{${1:%s}}', '{<%s}', '{%s}>b',
+                    '%s', 'ul>li{<%s}+li', 'p[%s=1]', 'p{a}+q{<%s>}', 'a[href=%s]', '!%s', 'lorem%s', 'p{<%s ', 'a:%s', 'p/%s']
+CSS_RUN_SLOTS = ['%s', 'p%s', 'p:%s', 'c#%s', 'p"%s"', 'p(%s)', '@%s', '$%s', 'p!%s', 'ff:"%s', 'lg(%s)', 'p-%s', 'm1%s', '--%s']
+WRAP_RUN_LINES = ['<%s', '<%s/>', '%s', '  <%s', 'http://%s', '%s@x.io', '- %s']
+SNIPPET_RUN_VALUES = ['%s', '-webkit-%s: x; %s: y', '%s:${1:a}|b', 'a>%s', '{<%s}', 'p[%s]', '%s: ${1:0}; b: ${2}', '-%s']
+
+
+def near_miss_inputs(rng, slots, n):
+    for _ in range(n):
+        yield rng.choice(slots).replace('%s', near_miss(rng))
+
+
+def must_return(ctx, fn, args, case, cls='near-miss-run'):
+    """a near miss only has to come back: the property's own oracle cannot read every such text back (a text that begins with `<`), but no
+    statement about a result holds for a call that never returns.  Judged: the call ends within its CPU budget and raises nothing but the
+    exceptions in `allowed`."""
+    from . import core
+    ctx.ev(cls)
+    ctx.mon('oracle:near-miss-returns')
+    r = core.call(fn, *args)
+    if r[0] == 'exc' and not isinstance(r[1], case.get('_allowed', ())):
+        c = {k: v for k, v in case.items() if k != '_allowed'}
+        ctx.violation('exception', c, {'exc': list(core.exc_site(r[1])), 'msg': str(r[1])[:160]})
+        return None
+    return r
